@@ -436,98 +436,7 @@ func runC10(w *World, r *Report) {
 	}
 
 	// ---------------------------------------------------------------- handoff/parse
-	pf := so.parse
-	ppos := w.Pos(pf.Decl.Pos())
-	pg := w.funcCFG(info, pf.Decl.Body)
-	var bObj types.Object
-	ast.Inspect(pf.Decl.Body, func(n ast.Node) bool {
-		if as, ok := n.(*ast.AssignStmt); ok && len(as.Rhs) == 1 && chanRecvOf(info, as.Rhs[0], so.poolFull) {
-			bObj = identObj(info, as.Lhs[0])
-		}
-		return true
-	})
-	if bObj == nil {
-		r.Fail(VUndecided, "handoff", pf.Key, "parse", ppos, "the parser does not bind the buffer it receives from the full pool to a variable")
-	} else {
-		classifyP := func(n ast.Node, emit func(cfgEvent)) {
-			if as, ok := n.(*ast.AssignStmt); ok && len(as.Rhs) == 1 && chanRecvOf(info, as.Rhs[0], so.poolFull) {
-				emit(cfgEvent{Kind: "R", Node: n})
-				return
-			}
-			if s, ok := isSendTo(info, n, so.poolEmpty); ok {
-				emit(cfgEvent{Kind: "E", Node: n, Obj: identObj(info, s.Value)})
-				return
-			}
-			if _, ok := isSendTo(info, n, so.inboundF); ok {
-				emit(cfgEvent{Kind: "I", Node: n})
-				return
-			}
-			done := false
-			ast.Inspect(n, func(m ast.Node) bool {
-				c, ok := m.(*ast.CallExpr)
-				if !ok {
-					return true
-				}
-				se, ok := unparen(c.Fun).(*ast.SelectorExpr)
-				if !ok {
-					return true
-				}
-				if se.Sel.Name == "Reset" && identObj(info, se.X) == bObj {
-					emit(cfgEvent{Kind: "Z", Node: n})
-					done = true
-					return false
-				}
-				if se.Sel.Name == "Parse" && len(c.Args) == 1 && usesObj(info, c.Args[0], bObj) {
-					emit(cfgEvent{Kind: "P", Node: n})
-					done = true
-					return false
-				}
-				return true
-			})
-			if !done && usesObj(info, n, bObj) {
-				emit(cfgEvent{Kind: "U", Node: n})
-			}
-		}
-		var pBad []string
-		nIt := 0
-		for _, lp := range w.loopsOf(pg, classifyP, nil) {
-			for _, p := range lp.Paths {
-				seq := ""
-				for _, e := range p.Events {
-					if e.Kind != "U" {
-						seq += e.Kind
-					}
-				}
-				if !strings.Contains(seq, "R") {
-					continue
-				}
-				nIt++
-				if seq != "RPIZE" {
-					addBad(&pBad, fmt.Sprintf("a parser path that took a buffer performs [%s] (R = take from full pool, P = parse its bytes, I = deliver on Inbound, Z = Reset, E = return to empty pool); expected exactly R P I Z E — a buffer that is not returned shrinks the pool until the reader blocks, one returned before delivery or twice is recycled while in use", seq))
-					continue
-				}
-				afterE := false
-				for _, e := range p.Events {
-					if e.Kind == "E" {
-						afterE = true
-						if e.Obj != bObj {
-							addBad(&pBad, "the value returned to the empty pool is not the buffer that was taken")
-						}
-					} else if e.Kind == "U" && afterE {
-						addBad(&pBad, "the buffer is used after it was returned to the empty pool")
-					}
-				}
-			}
-		}
-		if len(pBad) == 0 && nIt > 0 {
-			r.OK("handoff", pf.Key, "parse", ppos, fmt.Sprintf("%d paths of a parser iteration that took a buffer: parse, deliver, Reset, return — each exactly once, in this order", nIt), true)
-		} else if nIt == 0 {
-			r.Fail(VUndecided, "handoff", pf.Key, "parse", ppos, "no path of the parser loop takes a buffer from the full pool")
-		}
-		for i, d := range pBad {
-			r.Fail(VViolation, "handoff", pf.Key, fmt.Sprintf("parse/%d", i+1), ppos, d)
-		}
-	}
+	streamParseHandoff(w, r, so)
 
 	// ---------------------------------------------------------------- errpath
 	if len(errBad) == 0 && nExitPaths > 0 {
@@ -655,4 +564,113 @@ func isByteSliceOrArray(t types.Type) bool {
 	}
 	_, ok := isByteArray(t)
 	return ok
+}
+
+// streamParseHandoff: on every path of one parser iteration that took a buffer from the
+// full pool there is exactly one parse, one delivery, one Reset and one return of that
+// buffer to the empty pool, in this order (also part of C07: a malformed frame must not
+// leak pool buffers and so wedge the reader).
+func streamParseHandoff(w *World, r *Report, so *streamObjs) {
+	info := so.info
+	addBad := func(l *[]string, d string) {
+		for _, b := range *l {
+			if b == d {
+				return
+			}
+		}
+		*l = append(*l, d)
+	}
+	pf := so.parse
+	ppos := w.Pos(pf.Decl.Pos())
+	pg := w.funcCFG(info, pf.Decl.Body)
+	var bObj types.Object
+	ast.Inspect(pf.Decl.Body, func(n ast.Node) bool {
+		if as, ok := n.(*ast.AssignStmt); ok && len(as.Rhs) == 1 && chanRecvOf(info, as.Rhs[0], so.poolFull) {
+			bObj = identObj(info, as.Lhs[0])
+		}
+		return true
+	})
+	if bObj == nil {
+		r.Fail(VUndecided, "handoff", pf.Key, "parse", ppos, "the parser does not bind the buffer it receives from the full pool to a variable")
+	} else {
+		classifyP := func(n ast.Node, emit func(cfgEvent)) {
+			if as, ok := n.(*ast.AssignStmt); ok && len(as.Rhs) == 1 && chanRecvOf(info, as.Rhs[0], so.poolFull) {
+				emit(cfgEvent{Kind: "R", Node: n})
+				return
+			}
+			if s, ok := isSendTo(info, n, so.poolEmpty); ok {
+				emit(cfgEvent{Kind: "E", Node: n, Obj: identObj(info, s.Value)})
+				return
+			}
+			if _, ok := isSendTo(info, n, so.inboundF); ok {
+				emit(cfgEvent{Kind: "I", Node: n})
+				return
+			}
+			done := false
+			ast.Inspect(n, func(m ast.Node) bool {
+				c, ok := m.(*ast.CallExpr)
+				if !ok {
+					return true
+				}
+				se, ok := unparen(c.Fun).(*ast.SelectorExpr)
+				if !ok {
+					return true
+				}
+				if se.Sel.Name == "Reset" && identObj(info, se.X) == bObj {
+					emit(cfgEvent{Kind: "Z", Node: n})
+					done = true
+					return false
+				}
+				if se.Sel.Name == "Parse" && len(c.Args) == 1 && usesObj(info, c.Args[0], bObj) {
+					emit(cfgEvent{Kind: "P", Node: n})
+					done = true
+					return false
+				}
+				return true
+			})
+			if !done && usesObj(info, n, bObj) {
+				emit(cfgEvent{Kind: "U", Node: n})
+			}
+		}
+		var pBad []string
+		nIt := 0
+		for _, lp := range w.loopsOf(pg, classifyP, nil) {
+			for _, p := range lp.Paths {
+				seq := ""
+				for _, e := range p.Events {
+					if e.Kind != "U" {
+						seq += e.Kind
+					}
+				}
+				if !strings.Contains(seq, "R") {
+					continue
+				}
+				nIt++
+				if seq != "RPIZE" {
+					addBad(&pBad, fmt.Sprintf("a parser path that took a buffer performs [%s] (R = take from full pool, P = parse its bytes, I = deliver on Inbound, Z = Reset, E = return to empty pool); expected exactly R P I Z E — a buffer that is not returned shrinks the pool until the reader blocks, one returned before delivery or twice is recycled while in use", seq))
+					continue
+				}
+				afterE := false
+				for _, e := range p.Events {
+					if e.Kind == "E" {
+						afterE = true
+						if e.Obj != bObj {
+							addBad(&pBad, "the value returned to the empty pool is not the buffer that was taken")
+						}
+					} else if e.Kind == "U" && afterE {
+						addBad(&pBad, "the buffer is used after it was returned to the empty pool")
+					}
+				}
+			}
+		}
+		if len(pBad) == 0 && nIt > 0 {
+			r.OK("handoff", pf.Key, "parse", ppos, fmt.Sprintf("%d paths of a parser iteration that took a buffer: parse, deliver, Reset, return — each exactly once, in this order", nIt), true)
+		} else if nIt == 0 {
+			r.Fail(VUndecided, "handoff", pf.Key, "parse", ppos, "no path of the parser loop takes a buffer from the full pool")
+		}
+		for i, d := range pBad {
+			r.Fail(VViolation, "handoff", pf.Key, fmt.Sprintf("parse/%d", i+1), ppos, d)
+		}
+	}
+
 }
